@@ -348,6 +348,12 @@ class CallMixin:
             mst, v = self.merge_exits(nfr.exits, nfr.entry_pc_len)
             if collect:
                 v = self.freeze(locals_["$yield"], mst)
+                if v.op == "Loop" and len(v.args) == 3 and v.args[1].op == "List" and not v.args[1].args and \
+                        v.args[2].op == "ListAppend" and v.args[2].attr is None and \
+                        v.args[2].args[0].op == "LoopVar" and v.args[2].args[0].attr == v.attr and \
+                        self.g.vn(v.args[2].args[1]) == self.g.vn(self.iter_elem(v.args[0], site)):
+                    # `for x in it: yield x` (or `yield from it`): the generator is the sequence it walks
+                    v = v.args[0]
                 if v.extra is None:
                     v.extra = {}
                 v.extra["generator_of"] = fi
